@@ -214,6 +214,7 @@ pub struct Ctx6<'a> {
 
 impl<'a> Ctx6<'a> {
     fn run(&self, op: &str, input: &str, f: impl FnOnce()) {
+        crate::report::beat();
         self.w.enter(op, input);
         self.c.ops.fetch_add(1, AO::Relaxed);
         let r = guarded(f);
